@@ -107,3 +107,49 @@ Proof. vm_compute. split; reflexivity. Qed.
 Theorem rules_are_expasy_reference : MoPep.Gen.Expasy.site_rules = MoPep.Model.ExpasyRef.reference_rules.
 Proof. exact MoPep.Proofs.ExpasyProofs.rules_match_reference_proof. Qed.
 Print Assumptions rules_are_expasy_reference.
+
+(* ---- alternative-splicing records (<DEL>/<INS>/<SUB>; Model/SpecAS.v) ----
+   The record is reduced to a linear input on a derived backbone (the pattern of the fusion section). *)
+From MoPep Require Import Model.SpecAS Proofs.SpecASProofs.
+
+Theorem as_backbone_eq : forall x r,
+  in_tx (as_apply x r) =
+  firstn (Z.to_nat (a_s r)) (in_tx x) ++ a_donor r ++ skipn (Z.to_nat (a_e r)) (in_tx x).
+Proof. exact as_backbone_lemma. Qed.
+Print Assumptions as_backbone_eq.
+
+Theorem as_records_iff : forall x r v,
+  In v (in_vars (as_apply x r)) <->
+  (In v (in_vars x) /\ v_e v <= a_s r) \/
+  (exists w, In w (a_dvars r) /\ 0 <= v_s w /\ v_e w <= zlen (a_donor r) /\ v = move (a_s r) w) \/
+  (exists w, In w (in_vars x) /\ a_e r <= v_s w /\ v = move (as_delta r) w).
+Proof. exact as_records_lemma. Qed.
+Print Assumptions as_records_iff.
+
+(* the decider is the statement: some non-empty, pairwise disjoint, applicable combination s of the supplied
+   AS records such that p is a digestion product of the transcript carrying s and a compatible, possibly
+   empty, set of the small records that stay applicable (incl. those inside the donor segments) *)
+Theorem realizable_as_iff : forall x rs p,
+  realizable_as x rs p = true <->
+  exists m, length m = length rs /\
+    let s := select m rs in
+    nonempty s = true /\ as_pairwise s = true /\ forallb (as_ok x) s = true /\
+    (MayProduct (as_apply_all x s) [] p \/ Realizable (as_apply_all x s) p).
+Proof. exact realizable_as_iff_lemma. Qed.
+Print Assumptions realizable_as_iff.
+
+(* the backbone is the sequence that the GVF semantics proved for parseRMATS records in C16
+   (Rmats.apply_record) assigns to the record *)
+Theorem as_matches_rmats : forall conv t gseq dv r a,
+  as_of_gvf conv gseq dv (gvf_of_rmats r) = Some a ->
+  MoPep.Model.Rmats.apply_record conv t gseq r = Some (as_backbone t a).
+Proof. exact as_matches_rmats_lemma. Qed.
+Print Assumptions as_matches_rmats.
+
+(* Non-vacuity: exon skipping on ATG GCT AAA | GGT TGG | CGT TAA: deleting [9,15) gives MAKR, which the
+   transcript itself cannot give *)
+Example realizable_as_nonvacuous :
+  realizable_as (mkInput ex_tx2 true 0 false false [] [] [mkAlt [] (CIn [75; 82]) [CNotIn [80]]] None (mkLimits 1 0 3 30) [])
+                [mkAS 9 15 [] []] [77;65;75;82] = true /\
+  realizable ex_input2 [77;65;75;82] = false.
+Proof. vm_compute. split; reflexivity. Qed.
